@@ -198,13 +198,17 @@ class Sandbox:
         names, seqs = vlib.parse_fasta_text(so.decode())
         return self.emit("align", ctx, ok=True, names=names, seqs=[b(s) for s in seqs])
 
-    def distance(self, file, n, minf, allow_ambig=False, threads=1):
+    def distance(self, file, n, minf, allow_ambig=False, threads=1, default_minf=False):
         args = ["distance", self.path(file), "--min-freq", fstr(minf), "--threads", str(threads)]
+        if default_minf:
+            # --min-freq left out: the documented default of `ska distance` is 0 (every k-mer counts)
+            assert minf[0] == 0
+            args = ["distance", self.path(file), "--threads", str(threads)]
         if allow_ambig:
             args.append("--allow-ambiguous")
         rcode, so, se = self.run_out(args)
         ctx = {"file": file, "minf": minf, "allow_ambig": allow_ambig, "threads": threads,
-               "fp_ceil_differs": fp_ceil_differs(n, minf)}
+               "fp_ceil_differs": fp_ceil_differs(n, minf), "default_minf": default_minf}
         if rcode != 0:
             return self.emit("distance", ctx, ok=False, rows=[], err=se.decode(errors="replace")[-200:])
         rows = []
